@@ -173,91 +173,183 @@ func run(e *core.Env) {
 		e.Probe("announce_depth>=8")
 	}
 
-	// ---- reach ----
 	type want struct{ u, v int }
 	var pairs []want
-	for u := 0; u < n; u++ {
-		for v := 0; v < n; v++ {
-			if u != v {
-				pairs = append(pairs, want{u, v})
+	reach := func(tag string) {
+		pairs = nil
+		// ---- reach ----
+		for u := 0; u < n; u++ {
+			for v := 0; v < n; v++ {
+				if u != v {
+					pairs = append(pairs, want{u, v})
+				}
 			}
 		}
-	}
-	for _, pr := range pairs {
-		u, v := ms.Nodes[pr.u], ms.Nodes[pr.v]
-		rte, isDst := u.Router.Table().LookupNearest(v.IP)
-		if rte == nil || rte.DstIP != v.IP || !isDst {
-			got := "nothing"
-			if rte != nil {
-				got = rte.DstIP.String()
+		for _, pr := range pairs {
+			u, v := ms.Nodes[pr.u], ms.Nodes[pr.v]
+			rte, isDst := u.Router.Table().LookupNearest(v.IP)
+			if rte == nil || rte.DstIP != v.IP || !isDst {
+				got := "nothing"
+				if rte != nil {
+					got = rte.DstIP.String()
+				}
+				e.Fail("no-exact-route-after-drain"+tag, "%s mesh n=%d edges=%v: %s has no exact route to %s (lookup gave %s); %d announce instances, max depth %d",
+					ms.Kind, n, ms.Edges, u.Name, v.Name, got, len(insts), maxDepth)
 			}
-			e.Fail("no-exact-route-after-drain", "%s mesh n=%d edges=%v: %s has no exact route to %s (lookup gave %s); %d announce instances, max depth %d",
-				ms.Kind, n, ms.Edges, u.Name, v.Name, got, len(insts), maxDepth)
+		}
+		// Label-switched probes along the stored forward blocks (sampled pairs).
+		nProbe := min(len(pairs), 12)
+		for _, k := range tp.Perm(len(pairs))[:nProbe] {
+			pr := pairs[k]
+			u, v := ms.Nodes[pr.u], ms.Nodes[pr.v]
+			rte, _ := u.Router.Table().LookupNearest(v.IP)
+			if len(rte.Path.Hops) < 2 {
+				continue // direct peer route registered by AddLink carries no labels
+			}
+			var hopIPs []netip.Addr
+			for _, h := range rte.Path.Hops {
+				hopIPs = append(hopIPs, h.Router)
+			}
+			var block, final []byte
+			var next m.SwitchLabel
+			var err error
+			e.Guard("panic", func() { block, next, final, err = ms.FinalBlock(slices.Clone(rte.Path.ForwardBlock), hopIPs) })
+			if e.Failed() {
+				e.Fail("", "")
+			}
+			if err != nil {
+				e.Fail("forward-block-unusable"+tag, "%s route to %s hops %v block %x: %v", u.Name, v.Name, hopNames(ms, rte), rte.Path.ForwardBlock, err)
+			}
+			e.Logf("probe %s>%s fwd=%x start=%x first=%d final=%x", u.Name, v.Name, rte.Path.ForwardBlock, block, next, final)
+			ms.TakeProbes()
+			f, err := ms.NewProbeFrame(u, v.IP, block, final, false, fmt.Sprintf("probe %d>%d", pr.u, pr.v))
+			if err != nil {
+				e.Infra("probe frame: %v", err)
+			}
+			if err := u.Switch.ForwardByLabel(f, next); err != nil {
+				e.Fail("forward-label-has-no-link"+tag, "%s: first forward label %d of route to %s has no link: %v", u.Name, next, v.Name, err)
+			}
+			simnet.Wait()
+			if e.Trace {
+				if ss := v.State.GetSession(u.IP); ss != nil {
+					e.Logf("  session at %s for %s: key=%x want=%x", v.Name, u.Name, ss.Address().PublicKey, u.ID.PublicKey)
+				}
+				for _, p := range ms.Net.Pending() {
+					if pf, err := mesh.ParseCrossing(parser, p.Data); err == nil {
+						fv := pf.(*frame.FrameV1)
+						nx, rerr := m.NextRotateSwitchBlock(fv.SwitchBlock(), p.To.SwitchLabel())
+						fv.SetTTL(0)
+						fv.SetFlowControl(0)
+						e.Logf("  offline: recv label %d next=%d err=%v block=%x verify=%v seqtime=%v", p.To.SwitchLabel(), nx, rerr, fv.SwitchBlock(), fv.VerifyRaw(u.ID.PublicKey), fv.SequenceTime())
+					}
+					e.Logf("  in flight after probe send: %s->%s %x", p.From.Local.Name, p.To.Local.Name, p.Data[:min(len(p.Data), 80)])
+				}
+			}
+			ms.Net.DrainFIFO(tp, 2000)
+			got := ms.TakeProbes()
+			okAtV := false
+			for _, g := range got {
+				if g.At != pr.v {
+					e.Fail("probe-escalated-at-wrong-router"+tag, "probe %s>%s along hops %v was handed to %s", u.Name, v.Name, hopNames(ms, rte), ms.Nodes[g.At].Name)
+				}
+				okAtV = true
+			}
+			if !okAtV {
+				e.Fail("forward-labels-do-not-reach-destination"+tag, "%s mesh n=%d: probe %s>%s along hops %v (block %x) was not handed to the destination",
+					ms.Kind, n, u.Name, v.Name, hopNames(ms, rte), rte.Path.ForwardBlock)
+			}
+			e.Probe("label_switched_probe_delivered")
+			ms.CheckPanics("worker-panic")
 		}
 	}
-	// Label-switched probes along the stored forward blocks (sampled pairs).
-	nProbe := min(len(pairs), 12)
-	for _, k := range tp.Perm(len(pairs))[:nProbe] {
-		pr := pairs[k]
-		u, v := ms.Nodes[pr.u], ms.Nodes[pr.v]
-		rte, _ := u.Router.Table().LookupNearest(v.IP)
-		if len(rte.Path.Hops) < 2 {
-			continue // direct peer route registered by AddLink carries no labels
+	reach("")
+
+	// ---- links come back with other switch labels (a quarter of the runs) ----
+	// Links of one router go down and come up again under other labels - swapped between two
+	// of its links where it has two, a fresh label otherwise (a reconnect assigns labels anew).
+	// The mesh is the same connected mesh as before; after every router has announced itself
+	// again and the network has drained, the routes must lead to their destinations over the
+	// labels the links have now.
+	if n >= 3 && !opts.LongStagger && tp.Chance(1, 4) {
+		b := tp.Intn(n)
+		for tries := 0; tries < 8 && len(ms.Adj[b]) < 2; tries++ {
+			b = tp.Intn(n)
 		}
-		var hopIPs []netip.Addr
-		for _, h := range rte.Path.Hops {
-			hopIPs = append(hopIPs, h.Router)
+		nb := append([]int(nil), ms.Adj[b]...)
+		k := 1
+		if len(nb) >= 2 {
+			k = 2
+			p := tp.Perm(len(nb))
+			nb = []int{nb[p[0]], nb[p[1]]}
+		} else {
+			nb = nb[:1]
 		}
-		var block, final []byte
-		var next m.SwitchLabel
-		var err error
-		e.Guard("panic", func() { block, next, final, err = ms.FinalBlock(slices.Clone(rte.Path.ForwardBlock), hopIPs) })
-		if e.Failed() {
-			e.Fail("", "")
+		type end struct {
+			c          int
+			atB, atC   m.SwitchLabel
+			lat        uint16
+			liteB, liteC bool
 		}
-		if err != nil {
-			e.Fail("forward-block-unusable", "%s route to %s hops %v block %x: %v", u.Name, v.Name, hopNames(ms, rte), rte.Path.ForwardBlock, err)
-		}
-		e.Logf("probe %s>%s fwd=%x start=%x first=%d final=%x", u.Name, v.Name, rte.Path.ForwardBlock, block, next, final)
-		ms.TakeProbes()
-		f, err := ms.NewProbeFrame(u, v.IP, block, final, false, fmt.Sprintf("probe %d>%d", pr.u, pr.v))
-		if err != nil {
-			e.Infra("probe frame: %v", err)
-		}
-		if err := u.Switch.ForwardByLabel(f, next); err != nil {
-			e.Fail("forward-label-has-no-link", "%s: first forward label %d of route to %s has no link: %v", u.Name, next, v.Name, err)
+		var ends []end
+		B := ms.Nodes[b]
+		for _, c := range nb[:k] {
+			C := ms.Nodes[c]
+			lb, _ := B.Peering.GetLink(C.IP).(*simnet.Link)
+			lc, _ := C.Peering.GetLink(B.IP).(*simnet.Link)
+			if lb == nil || lc == nil {
+				e.Infra("link objects of edge %d-%d not found", b, c)
+			}
+			ends = append(ends, end{c: c, atB: lb.SwitchLabel(), atC: lc.SwitchLabel(), lat: lb.Latency(), liteB: lc.Lite(), liteC: lb.Lite()})
+			lb.Close(nil)
 		}
 		simnet.Wait()
-		if e.Trace {
-			if ss := v.State.GetSession(u.IP); ss != nil {
-				e.Logf("  session at %s for %s: key=%x want=%x", v.Name, u.Name, ss.Address().PublicKey, u.ID.PublicKey)
+		ms.Net.DrainFIFO(tp, 60000)
+		for _, en := range ends {
+			if B.Peering.GetLink(ms.Nodes[en.c].IP) != nil || ms.Nodes[en.c].Peering.GetLink(B.IP) != nil {
+				e.Infra("link %d-%d still registered after close", b, en.c)
 			}
-			for _, p := range ms.Net.Pending() {
-				if pf, err := mesh.ParseCrossing(parser, p.Data); err == nil {
-					fv := pf.(*frame.FrameV1)
-					nx, rerr := m.NextRotateSwitchBlock(fv.SwitchBlock(), p.To.SwitchLabel())
-					fv.SetTTL(0)
-					fv.SetFlowControl(0)
-					e.Logf("  offline: recv label %d next=%d err=%v block=%x verify=%v seqtime=%v", p.To.SwitchLabel(), nx, rerr, fv.SwitchBlock(), fv.VerifyRaw(u.ID.PublicKey), fv.SequenceTime())
+		}
+		time.Sleep(time.Duration(1+tp.Intn(3000)) * time.Millisecond)
+		newAtB := make([]m.SwitchLabel, len(ends))
+		if len(ends) == 2 {
+			newAtB[0], newAtB[1] = ends[1].atB, ends[0].atB
+		} else {
+			for {
+				l := m.SwitchLabel(1 + tp.Intn(120))
+				if l != ends[0].atB && B.Peering.GetLinkByLabel(l) == nil {
+					newAtB[0] = l
+					break
 				}
-				e.Logf("  in flight after probe send: %s->%s %x", p.From.Local.Name, p.To.Local.Name, p.Data[:min(len(p.Data), 80)])
 			}
 		}
-		ms.Net.DrainFIFO(tp, 2000)
-		got := ms.TakeProbes()
-		okAtV := false
-		for _, g := range got {
-			if g.At != pr.v {
-				e.Fail("probe-escalated-at-wrong-router", "probe %s>%s along hops %v was handed to %s", u.Name, v.Name, hopNames(ms, rte), ms.Nodes[g.At].Name)
+		for i, en := range ends {
+			atC := en.atC
+			if tp.Chance(1, 2) {
+				for {
+					l := m.SwitchLabel(1 + tp.Intn(120))
+					if l != en.atC && ms.Nodes[en.c].Peering.GetLinkByLabel(l) == nil {
+						atC = l
+						break
+					}
+				}
 			}
-			okAtV = true
+			if _, _, err := ms.Net.Connect(B, ms.Nodes[en.c], simnet.ConnectOpts{LabelAtA: newAtB[i], LabelAtB: atC, LatencyMs: en.lat, LiteA: en.liteB, LiteB: en.liteC}); err != nil {
+				e.Infra("reconnect: %v", err)
+			}
 		}
-		if !okAtV {
-			e.Fail("forward-labels-do-not-reach-destination", "%s mesh n=%d: probe %s>%s along hops %v (block %x) was not handed to the destination",
-				ms.Kind, n, u.Name, v.Name, hopNames(ms, rte), rte.Path.ForwardBlock)
+		e.Fault("link_flap_new_labels")
+		steps := ms.Net.RunFor(tp, 5*time.Minute+time.Second, 60000)
+		simnet.Wait()
+		steps += ms.Net.DrainFIFO(tp, 60000)
+		if steps >= 60000 {
+			e.Fail("flood-does-not-terminate", "more than 60000 deliveries after a link flap in a %s mesh of %d nodes", ms.Kind, n)
 		}
-		e.Probe("label_switched_probe_delivered")
 		ms.CheckPanics("worker-panic")
+		if floodViolation != "" {
+			e.Fail(floodViolation, "%s", floodDetail)
+		}
+		reach("/after-links-came-back-with-other-labels")
+		e.Probe("links_came_back_with_other_labels")
 	}
 	e.Sample("%d announce instances, %d deliveries, max hop depth %d, %d pairs reach-checked", len(insts), totalSteps, maxDepth, len(pairs))
 }
